@@ -813,3 +813,136 @@ def c17(pid, tier, replay):
 
 
 REGISTRY["C17"] = c17
+
+
+def parse_race_logs(prefix):
+    """Go race detector reports (GORACE log_path=prefix): keep those whose two stacks both contain a HIDI frame
+    outside the harness."""
+    import glob as _g
+    import re as _re
+    reports = []
+    for p in _g.glob(prefix + "*"):
+        with open(p, errors="replace") as f:
+            text = f.read()
+        for block in text.split("=================="):
+            if "WARNING: DATA RACE" not in block:
+                continue
+            parts = _re.split(r"\n(?=Previous |Goroutine \d+ \()", block)
+            acc = [x for x in parts if x.lstrip().startswith(("WARNING", "Previous", "Read at", "Write at"))][:2]
+            stacks = _re.split(r"\nPrevious ", block, 1)
+            def hidi(s):
+                return any("gethiox/HIDI/internal/pkg" in l and "/internal/verif/" not in l for l in s.split("Goroutine")[0].splitlines())
+            if len(stacks) == 2 and hidi(stacks[0]) and hidi(stacks[1]):
+                fr = [l.strip() for l in block.splitlines() if "gethiox/HIDI/internal/pkg" in l and "()" in l][:6]
+                reports.append({"ev": "race", "frames": fr, "text": block.strip()[:1800]})
+    return reports
+
+
+def lifecycle_batches(seed, tier):
+    import random
+    rng = random.Random(seed * 911 + 2)
+    cfg = devdrivers.factory_keyboard_cfg("interrupt")
+    cfg["exit"] = []
+    notes = ["KEY_Z", "KEY_X", "KEY_C", "KEY_V", "KEY_Q", "KEY_W"]
+    layout = ["KEY_ESC", "KEY_F1", "KEY_F2", "KEY_Z", "KEY_X", "KEY_C", "KEY_V", "KEY_Q", "KEY_W", "KEY_F5", "KEY_F6", "other:Logo"]
+    def walk(n, held_at_end, midi=True, sleep_before_disc=0):
+        w, held = [], []
+        for _ in range(n):
+            r = rng.random()
+            if r < 0.35 and len(held) < 4:
+                k = rng.choice([x for x in notes if x not in held])
+                held.append(k)
+                w.append({"ev": "press", "k": k})
+            elif r < 0.55 and held:
+                k = held.pop(rng.randrange(len(held)))
+                w.append({"ev": "release", "k": k})
+            elif r < 0.75 and midi:
+                w.append({"ev": "midiin", "msg": [rng.choice([0x90, 0x91, 0x80, 0x81]), rng.choice([36, 38, 40]), rng.choice([0, 100])]})
+            elif r < 0.85:
+                k = rng.choice(["KEY_F1", "KEY_F2", "KEY_F5", "KEY_F6", "KEY_ESC"])
+                w += [{"ev": "press", "k": k}, {"ev": "release", "k": k}]
+        while len(held) < held_at_end:
+            k = rng.choice([x for x in notes if x not in held])
+            held.append(k)
+            w.append({"ev": "press", "k": k})
+        if sleep_before_disc:
+            w.append({"ev": "sleep", "raw": sleep_before_disc})
+        w.append({"ev": "disconnect"})
+        return w
+    n = 4 if tier == "quick" else 30
+    waited = [{"cfg": cfg, "colors": LED_COLORS, "layout": layout,
+               "walks": [walk(rng.randrange(3, 14), rng.choice([0, 1, 3])) for _ in range(n)]} for _ in range(3)]
+    # no waiting for frames: disconnect while the LED goroutine is connecting / anywhere in its cycle
+    nowait = [{"cfg": cfg, "colors": LED_COLORS, "layout": layout, "nowait": True,
+               "walks": [walk(rng.randrange(0, 10), rng.choice([0, 2]), sleep_before_disc=rng.choice([0, 0, 3, 8, 260, 520, 600]))
+                         for _ in range(n * 2)]} for _ in range(3)]
+    return [[b] for b in waited + nowait]
+
+
+def c16(pid, tier, replay):
+    scr = vlib.Scratch(pid)
+    out = devcheck.Outcome(pid, tier, ["C16_"])
+    cfg = ('SPECIFICATION Spec\nCONSTANTS\n  NEvents = %d\n  NMidi = 2\n  MaxCycles = %d\n  CleanupLocks = {"M"}\n'
+           'INVARIANTS NoRace NoLeftover LocksReleased\nPROPERTIES Terminates\nCHECK_DEADLOCK FALSE\n' % ((2, 2) if tier == "quick" else (3, 3)))
+    res = vlib.run_tlc(scr, "Lifecycle", cfg, workers=8, timeout=1200)
+    if not res.completed:
+        raise Infra("Lifecycle.tla (clean-up under the event mutex, the design in the tree) does not satisfy its properties:\n" + res.tail(40))
+    out.add_mc("Lifecycle.tla CleanupLocks={M}", res)
+    scr.build(race=True)
+    racelog = scr.path("race.log")
+    groups = lifecycle_batches(vlib.seed(), tier)
+    def one(g):
+        t, _ = run_led(scr, g, tag="life", race=True, extra_env={"GORACE": "halt_on_error=0 log_path=%s" % racelog})
+        return t, vlib.validate_trace(scr, "LedTrace", t, xmx="3g")
+    with ThreadPoolExecutor(max_workers=6) as ex:
+        for t, r in ex.map(one, groups):
+            out.add_validation(t, r)
+    # race reports and isolation runs, judged as cases
+    extra = casecheck.CaseOutcome(pid, tier, ["C16_"])
+    races = parse_race_logs(racelog)
+    seen, uniq = set(), []
+    for r in races:
+        key = tuple(r["frames"][:4])
+        if key not in seen:
+            seen.add(key)
+            uniq.append(r)
+    iso_batches = []
+    for b in devdrivers.random_keys(vlib.seed(), "quick"):
+        for i in range(0, 16 if tier == "quick" else len(b["walks"]), 8):
+            iso_batches.append({"cfg": b["cfg"], "cfgmode": "literal", "sub": "", "walks": b["walks"][i:i + 8]})
+    bp = scr.fresh("iso") + ".json"
+    with open(bp, "w") as f:
+        json.dump(iso_batches, f)
+    t2 = scr.fresh("isolation") + ".ndjson"
+    run_cmd([scr.build(race=True), "isolation", bp, t2], timeout=1800)
+    with open(t2, "a") as f:
+        for r in uniq:
+            f.write(json.dumps(r) + "\n")
+    r2 = vlib.validate_trace(scr, "LifecycleHistTrace", t2, xmx="3g")
+    extra.add(t2, r2)
+    new_extra = [(p, c) for p, c in extra.viol if extra.mine(p)]
+    rc = 0
+    shown = 0
+    for pred, case in new_extra:
+        shown += 1
+        if shown > 4:
+            break
+        rp = vlib.write_replay(pid, {"property": pid, "predicate": pred, "case": {k: v for k, v in case.items() if k in ("ev", "frames", "text", "batch", "script", "msg")}})
+        print("VIOLATION property=%s replay=%s" % (pid, rp))
+        print("  predicate %s: %s" % (pred, (case.get("frames") or case.get("msg") or "output of a device differs when other devices run")))
+        rc = 1
+    rc2 = out.finish(level="exploration",
+                     rule="every life-cycle scenario (keys held, MIDI input arriving, LED goroutine connecting or mid-cycle, disconnect at a "
+                          "seeded moment) is one life of the real device under Go's race detector, validated by LedTrace (clean-up output, "
+                          "prompt return, no goroutine of package device left, final red frame); race reports and isolation runs are judged "
+                          "by LifecycleHist!Judge",
+                     assumptions=["data races are found by Go's race detector on the schedules the harness runs, not on all schedules; "
+                                  "Lifecycle.tla explores all interleavings of the design",
+                                  "'promptly' = ProcessEvents returns within 2 s of its input being closed (measured: about 10 ms)"],
+                     extra={"race_reports_with_HIDI_frames": len(uniq), "isolation_runs": extra.classes,
+                            "evaluations": out.events + extra.cases,
+                            "distinct_nontrivial": out.traces + extra.cases, "exhaustive": False})
+    return max(rc, rc2)
+
+
+REGISTRY["C16"] = c16
